@@ -21,12 +21,24 @@ EXPLANATION = (
     "(6) Retrieve._validate_block returns {shnum:(block,salt)} only after the block-hash leaf "
     "block_hash(salt+block | block) at index segnum and the share-hash leaf bht[0] at index shnum were accepted, "
     "MDMF hashes salt+block, hash failures raise; (7) the share hash tree root is verinfo root_hash and the "
-    "trees are bound only in _setup_download; (8) _decode_blocks only with 'None not in results' of "
-    "_validate_block outputs, _handle_bad_share yields None; consumer.write only in _set_segment on the chain "
+    "trees are bound only in _setup_download; (8) _decode_blocks is fed only the gathered _validate_block outputs, "
+    "_handle_bad_share yields None (a None entry makes _decode_blocks raise, i.e. an error, so the 'None in results' "
+    "test itself is not demanded); consumer.write only in _set_segment on the chain "
     "decode -> decrypt -> _set_segment; (9) both _try_to_validate_privkey install a signing key only after "
     "ssk_writekey_hash(decrypted) == node writekey; (10) the SDMF decryption IV handed to the decoder is "
-    "authenticated (covered by the block hash or equal to the signed verinfo IV). "
-    "Undecided: RSA / SHA-256d strength, hashtree arithmetic, zfec algebra, availability (k intact shares => success).")
+    "authenticated (covered by the block hash or equal to the signed verinfo IV); (11) segment sequencing: "
+    "_maybe_decode_and_decrypt_segment hands the decode -> decrypt -> _set_segment Deferred back to the segment loop on "
+    "every path after the decode started, _set_segment writes the segment on every non-verify path and advances "
+    "_current_segment by exactly one exactly once, only _setup_encoding_parameters (= _start_segment) and _set_segment "
+    "move _current_segment, _process_segment is run for _current_segment; (12) _set_segment cuts the tail only under "
+    "_current_segment == _last_segment and a non-zero bound, the head only under _current_segment == _start_segment, "
+    "does each cut on every path to the write where that equality holds (unless an edge says the boundary remainder is "
+    "zero), and blanks the segment only under _read_length == 0. "
+    "Undecided: RSA / SHA-256d strength, hashtree arithmetic, zfec algebra, availability (k intact shares => success; "
+    "this includes edits that only make a gate stricter, e.g. `and` -> `or` in the SDMF IV test, skipping "
+    "bht.set_hashes(blockhashes), negating the bad-share / running tests of the servermap updater), pause/stop "
+    "handling, the values of the trim bounds ((offset + read_length) % segment_size, offset % segment_size) and the "
+    "order tail-before-head, _decode_blocks' own trimming (C09), publish-side surprise handling (C12).")
 TECHNIQUE = "static analysis: CFG must-precede gates on normalised edge facts, who-may-call/write sweeps, Deferred chain order, reaching definitions"
 
 SM = "mutable.servermap:ServermapUpdater"
